@@ -1087,23 +1087,34 @@ func bcSameSidOtherNat(t *testing.T, inst *bcInst) string {
 func bcNatSpellings(t *testing.T, inst *bcInst) string {
 	fold := func(s string) string { return strings.ToLower(strings.Replace(s, "\u017f", "s", -1)) }
 	var ps, cs []*bcReq
-	for i, nat := range []string{"Restricted", "UNKNOWN", "re\u017ftricted", "Unrestricted"} {
-		p := &bcReq{kind: 'P', id: 10 + i, wireNat: nat, nat: fold(nat)}
+	for i, nat := range []string{"Restricted", "UNKNOWN", "re\u017ftricted", "Unrestricted", "restricted", "unrestricted"} {
+		p := &bcReq{kind: 'P', id: 10 + i, wireNat: nat, nat: fold(nat), clients: i}
 		ps = append(ps, p)
 		inst.start(p)
 	}
 	time.Sleep(300 * time.Millisecond)
-	for i, nat := range []string{"Restricted", "UNKNOWN", "restricted", "unknown", "Unrestricted"} {
+	for i, nat := range []string{"Unrestricted", "Restricted", "UNKNOWN", "restricted", "unknown", "Unrestricted"} {
 		c := &bcReq{kind: 'C', id: 101 + i, wireNat: nat, nat: fold(nat)}
 		cs = append(cs, c)
 		inst.start(c)
 		time.Sleep(50 * time.Millisecond)
 	}
 	bcWait(func() bool { return !inst.anyPending() }, bcTimeout()+bcTimeout())
-	desc := "polls with NAT spelled Restricted / UNKNOWN / re\u017ftricted / Unrestricted, clients spelled Restricted / UNKNOWN / restricted / unknown / Unrestricted"
+	desc := "polls with NAT spelled Restricted / UNKNOWN / re\u017ftricted / Unrestricted / restricted / unrestricted, then clients spelled Unrestricted / Restricted / UNKNOWN / restricted / unknown / Unrestricted"
 	byID := map[int]*bcReq{}
 	for _, c := range cs {
 		byID[c.id] = c
+	}
+	// the first client reads as unrestricted (if its spelling is accepted at all): the correctly spelled restricted
+	// poll is waiting, so it must be served from the restricted / unknown pool and must not be refused
+	first := cs[0]
+	if first.outcome == "denied" {
+		desc += fmt.Sprintf(" UNRESTRICTED-CLIENT-REFUSED: client %d (%q) was told no proxies while restricted proxies were waiting", first.id, first.wireNat)
+	}
+	for _, p := range ps {
+		if p.offerOf == first.id && p.nat == "unrestricted" {
+			desc += fmt.Sprintf(" UNRESTRICTED-CLIENT-TOOK-UNRESTRICTED-PROXY: client %d (%q) was given proxy %d (%q) while restricted proxies were waiting", first.id, first.wireNat, p.id, p.wireNat)
+		}
 	}
 	for _, p := range ps {
 		if c := byID[p.offerOf]; p.offerOf != 0 && c != nil && c.nat != "unrestricted" && p.nat != "unrestricted" {
@@ -1113,7 +1124,59 @@ func bcNatSpellings(t *testing.T, inst *bcInst) string {
 	return desc
 }
 
+// a burst of polls of both NAT types arrives while the matching lock is held (contention): however the broker
+// registers them once the lock is free, every pool must come out ordered - each client gets a proxy with the
+// smallest client count of its eligible pool
+func bcBurstWhileLocked(t *testing.T, inst *bcInst) string {
+	desc := "matching lock held while 14 polls arrive (alternating unrestricted / restricted, client counts 13 down to 0); lock released; then 3 unrestricted and 3 restricted clients, one at a time"
+	if !inst.lock() {
+		return desc + " (matching lock not available)"
+	}
+	var ps []*bcReq
+	for i := 0; i < 14; i++ {
+		nat := []string{"unrestricted", "restricted"}[i%2]
+		p := &bcReq{kind: 'P', id: 10 + i, wireNat: nat, nat: nat, clients: 13 - i}
+		ps = append(ps, p)
+		inst.start(p)
+		time.Sleep(5 * time.Millisecond)
+	}
+	time.Sleep(200 * time.Millisecond)
+	inst.ctx.snowflakeLock.Unlock()
+	bcWait(func() bool { hu, hr, _, _ := inst.counts(); return hu+hr == 14 }, 5*time.Second)
+	var cs []*bcReq
+	for i := 0; i < 6; i++ {
+		nat := []string{"unrestricted", "restricted"}[i%2]
+		c := &bcReq{kind: 'C', id: 101 + i, wireNat: nat, nat: nat}
+		cs = append(cs, c)
+		inst.start(c)
+		// the next client only after this one has taken its proxy
+		bcWait(func() bool {
+			for _, p := range ps {
+				if p.isDone() && p.offerOf == c.id {
+					return true
+				}
+			}
+			return c.isDone()
+		}, 5*time.Second)
+	}
+	// expected: unrestricted clients take restricted proxies with counts 0, 2, 4; restricted clients take unrestricted proxies with counts 1, 3, 5
+	for i, c := range cs {
+		want := []int{0, 1, 2, 3, 4, 5}[i]
+		got := -1
+		for _, p := range ps {
+			if p.isDone() && p.offerOf == c.id {
+				got = p.clients
+			}
+		}
+		if got != want {
+			desc += fmt.Sprintf(" NOT-MIN-CLIENTS: client %d (%s) was given a proxy reporting %d clients, the least loaded eligible proxy reported %d", c.id, c.nat, got, want)
+		}
+	}
+	return desc
+}
+
 var bcScenarios = []bcScenario{
+	{"burst-of-polls-while-lock-held", bcBurstWhileLocked},
 	{"many-waiting-proxies", bcManyWaiting},
 	{"same-sid-repoll-with-other-nat", bcSameSidOtherNat},
 	{"nat-spellings", bcNatSpellings},
@@ -1160,6 +1223,12 @@ func runBrokerScenarios(t *testing.T, r *vh.Run, prop string) {
 		if prop == "C03" {
 			if strings.Contains(o.desc, "NAT-INCOMPATIBLE") {
 				r.OracleFail("nat-incompatible-match", line, trunc1k(o.real), "a restricted or unknown client is only ever matched with an unrestricted proxy")
+			}
+			if strings.Contains(o.desc, "NOT-MIN-CLIENTS") {
+				r.OracleFail("match-not-min-clients", line, trunc1k(o.real), "among the eligible waiting proxies a client is given one with the smallest self-reported client count")
+			}
+			if strings.Contains(o.desc, "UNRESTRICTED-CLIENT-") {
+				r.OracleFail("unrestricted-client-not-served-from-restricted-pool", line, trunc1k(o.real), "a client reporting an unrestricted NAT is served from the pool of restricted/unknown proxies, and refused only if none of them waits")
 			}
 			if strings.Contains(o.desc, "DENIED-ALTHOUGH-ELIGIBLE") || strings.Contains(o.desc, "WRONG-DENIALS") {
 				r.OracleFail("denied-although-eligible-proxy-waiting", line, trunc1k(o.real), "a client is refused only if no compatible proxy is waiting")
